@@ -1312,6 +1312,8 @@ def _receiver_classes(g: Any, name: str) -> set[str]:
     for v in Locals(g.node).values_of(name):
         if isinstance(v, ast.Call):
             out.add(call_name(v).rsplit(".", 1)[-1])
+            if isinstance(v.func, ast.Attribute) and isinstance(v.func.value, ast.Name):
+                out.add(v.func.value.id)  # `<Class>.<alternative constructor>(...)`
     return out
 
 
@@ -1949,13 +1951,27 @@ def _imports_of_every_property(rep: Report, ctx: Any, cfgs: dict[str, CFG]) -> N
     # roles: the result (the call that hands back the two property lists and the two import sets), the mapping every property of the
     # composed model is stored in, the two result lists - each as _process_properties calls them
     fields = list(ix.cls("_PropertyData").fields)
-    results = [(g, c) for g in funcs for c in _own_nodes(g.node) if isinstance(c, ast.Call) and call_name(c).rsplit(".", 1)[-1] == "_PropertyData"]
+    def makes_result(g: Any, c: ast.AST) -> bool:
+        """the call constructs the result: by the name of its class, or as `cls(...)` in an alternative constructor of that class"""
+        if not isinstance(c, ast.Call):
+            return False
+        if call_name(c).rsplit(".", 1)[-1] == "_PropertyData":
+            return True
+        first = [a.arg for a in [*g.node.args.posonlyargs, *g.node.args.args]][:1]
+        return g.cls is not None and g.cls.name == "_PropertyData" and g.kind == "classmethod" and [call_name(c)] == first
+
+    results = [(g, c) for g in funcs for c in _own_nodes(g.node) if makes_result(g, c)]
     rep.require(results, "construction of the result (_PropertyData) in the region of _process_properties")
     role: dict[str, set[str]] = {}
     for g, c in results:
         given = {**dict(zip(fields, c.args)), **{kw.arg: kw.value for kw in c.keywords if kw.arg}}
         for k, v in given.items():
             role.setdefault(k, set()).update(_in_caller(pp, g, _unfiltered_sources(v, Locals(g.node)) or names_in(v)))
+    for g in funcs:  # ... or what is filled in afterwards: the field of a result object is that variable, wherever the object is at hand
+        for n in _own_nodes(g.node):
+            if isinstance(n, ast.Attribute) and isinstance(n.value, ast.Name) and n.attr in fields and "_PropertyData" in _receiver_classes(g, n.value.id):
+                var = f"{n.value.id}.{n.attr}"
+                role.setdefault(n.attr, set()).update(_in_caller(pp, g, {var}) or {f"{g.name}: {var}"})
     rep.floor("composed_result_roles", sum(1 for k in ("required_props", "optional_props", "relative_imports", "lazy_imports") if role.get(k)), 2)
     lists = [role.get("required_props", set()), role.get("optional_props", set())]
     storage: set[str] = set()
@@ -1980,27 +1996,52 @@ def _imports_of_every_property(rep: Report, ctx: Any, cfgs: dict[str, CFG]) -> N
                             out |= seen_from_pp(h, _unfiltered_sources(a, Locals(h.node))) if h.qual != g.qual else set()
         return out
 
+    def asked(g: Any, var: str, method: str, depth: int = 2) -> list[ast.Call]:
+        """the calls of g by which `method` is called on what variable var holds (or on a copy made from it): `<var>.<method>(...)`, or the
+        call of a function of the region that is handed it and calls the method on what it is handed on every path"""
+        out: list[ast.Call] = []
+        for c in _own_nodes(g.node):
+            if not isinstance(c, ast.Call):
+                continue
+            if isinstance(c.func, ast.Attribute) and c.func.attr == method and isinstance(c.func.value, ast.Name) and c.func.value.id == var:
+                out.append(c)
+            elif depth > 0:
+                for h in _callees(g, c, funcs):
+                    bound = (_bind_args(h.node, _plain_call(h, c)) or {}) if h.qual != g.qual else {}
+                    if any(var in names_in(a) and asked_always(h, p_, method, depth - 1) for p_, a in bound.items()):
+                        out.append(c)
+                        break
+        return out
+
+    def asked_always(h: Any, param: str, method: str, depth: int) -> bool:
+        sts = [stmt_of(h.node, c) for c in asked(h, param, method, depth)]
+        return bool(sts) and all(st is not None for st in sts) and \
+            cfg_of(h, cfgs).every_path_passes(ENTRY, EXIT, lambda n: any(n is st for st in sts))
+
     for method, what in (("get_imports", "imports"), ("get_lazy_imports", "lazy-imports")):
         verdicts: list[tuple[bool, bool, str, Any, ast.AST]] = []
         for g in funcs:
             cfg = cfg_of(g, cfgs)
-            for c in _own_nodes(g.node):
-                if not (isinstance(c, ast.Call) and isinstance(c.func, ast.Attribute) and c.func.attr == method and isinstance(c.func.value, ast.Name)):
-                    continue
-                b = _binder(g.node, c, c.func.value.id)
-                if b is None:
-                    continue  # not the element of an iteration (a single extra property, say)
+            # the iterations of g (loops and comprehensions), each with the places at which the method is asked of its element
+            per_binder: dict[int, tuple[Any, list[ast.Call]]] = {}
+            bound_vars = {v for n in _own_nodes(g.node) if isinstance(n, (ast.For, ast.AsyncFor, ast.comprehension)) for v in names_in(n.target)}
+            for var in sorted(bound_vars):
+                for c in asked(g, var, method):
+                    b = _binder(g.node, c, var)
+                    if b is not None:  # else: not the element of an iteration (a single extra property, say)
+                        per_binder.setdefault(id(b), (b, []))[1].append(c)
+            for b, cs in per_binder.values():
                 sources = seen_from_pp(g, _unfiltered_sources(b.iter, Locals(g.node)))
                 covers = bool(sources & storage) or (all(lists) and all(l_ & sources for l_ in lists))
                 if isinstance(b, ast.comprehension):
                     always = not b.ifs
                 else:
-                    s = stmt_of(g.node, c)
+                    sts = [stmt_of(g.node, c) for c in cs]
                     inside = {id(x) for x in ast.walk(b)}
-                    skipping = cfg.reachable_from(b.body[0], avoid=lambda n, s=s: n is s) if b.body[0] is not s else set()
+                    skipping = cfg.reachable_from(b.body[0], avoid=lambda n, sts=sts: any(n is s for s in sts)) if not any(b.body[0] is s for s in sts) else set()
                     # the next element is reached, or the loop is left for good, without the call (an error return ends everything)
-                    always = s is not None and not any(n is b or (n is not EXIT and id(n) not in inside) for n in skipping)
-                verdicts.append((covers, always, norm(b.iter)[:60], g, c))
+                    always = all(s is not None for s in sts) and not any(n is b or (n is not EXIT and id(n) not in inside) for n in skipping)
+                verdicts.append((covers, always, norm(b.iter)[:60], g, cs[0]))
         ok = any(cv and al for cv, al, _, _, _ in verdicts)
         at = where(verdicts[0][3], verdicts[0][4]) if verdicts else where(pp, pp.node)
         rep.check(ok, "R15.7", f"_process_properties::every-property-{what}",
@@ -2277,6 +2318,8 @@ def _with_record_methods(ix: Any, reg: list[Any]) -> list[Any]:
         for g in frontier:
             for c in calls_in(g.node):
                 name = call_name(c)
+                if name.startswith("_") and name.count(".") == 1:
+                    name = name.split(".", 1)[0]  # `_Record.empty(...)`: a constructor of the record by another name
                 r = ix.resolve(g.module, name) if name.startswith("_") and "." not in name else None
                 if r and r[0] == "class" and r[1].module is g.module:
                     for m in r[1].methods.values():
